@@ -163,6 +163,12 @@ impl AffineForm {
     fn from_constraint(constraint: &Constraint) -> Option<Self> {
         let mut lhs = Self::from_exp(constraint.lhs())?;
         lhs.merge(Self::from_exp(constraint.rhs())?, -1.0);
+        // a coefficient that overflowed (`x / 5e-324`, `1e300 * (1e300 * x)`)
+        // cannot be divided back: `1.0 / inf == 0.0` would pin the variable
+        // to [0, 0]. Such rows take the interval path instead.
+        if !lhs.constant.is_finite() || lhs.coefficients.values().any(|value| !value.is_finite()) {
+            return None;
+        }
         Some(lhs)
     }
 
